@@ -130,13 +130,14 @@ class PycodeSerializer:
             return
 
         next_level = level + 1
-        yield "[\n"
+        start, end = ("(", ")") if isinstance(obj, tuple) else ("[", "]")
+        yield f"{start}\n"
         for val in obj:
             yield spaces * next_level
             yield from self.repr_object(val, next_level, types)
             yield ",\n"
 
-        yield f"{spaces * level}]"
+        yield f"{spaces * level}{end}"
 
     def repr_mapping(self, obj: Mapping, level: int, types: set[type]) -> Iterator[str]:
         """Convert a map object to repr code.
